@@ -371,3 +371,41 @@ func (s *session) pickSub() (int, bool) {
 }
 
 func dsKey(k string) datastore.Key { return datastore.NewKey(k) }
+
+// runLong: one store that grows beyond a thousand certificates under the default checkpoint frequency, so that range
+// reads and power-table derivations span more than 1024 instances (ordinary histories stay far below), read back
+// before and after reopening.
+func runLong(out *vh.Out, in *interner, rng *vh.Rng) {
+	freq := uint64(certstore.VerifDefaultPowerTableFrequency)
+	s := newSession(out, in, rng, freq)
+	out.Line("new freq=%d c09-long", freq)
+	first := uint64(1 + rng.Intn(300))
+	if s.exec(mstep{kind: "create", first: first, init: genInitTable(rng)}, -1) != "ok" || s.cs == nil {
+		return
+	}
+	n := 1060 + rng.Intn(120)
+	for i := 0; i < n; i++ {
+		nt := s.cur
+		if rng.Chance(1, 6) {
+			nt = nextTable(rng, s.cur)
+		}
+		if s.exec(mstep{kind: "put", cert: mkCert(rng, in, s.next, s.cur, nt)}, -1) != "ok" {
+			return
+		}
+	}
+	look := func() {
+		s.opRange(s.first, s.next-1)                    // everything: more than 1024 certificates
+		s.opRange(s.first, s.first+1030)                // a stored stretch longer than 1024
+		s.opRange(s.first+5, s.next+uint64(rng.Intn(40))) // runs past the end: must say so
+		s.opRange(s.next-3, s.next-1)
+		s.opPT(s.first + 1040)                       // derived over more than 1024 deltas
+		s.opPT(s.next)
+		s.opObs("")
+	}
+	look()
+	s.opClose()
+	if s.exec(mstep{kind: "open"}, -1) == "ok" && s.cs != nil {
+		look()
+	}
+	s.dropHandle()
+}
